@@ -296,13 +296,16 @@ def run(chk):
     g = Gen(rng, sets)
 
     # ---------------- 1. character classes: membership per code point
-    classes = [g.cls() for _ in range(30 if quick else 4000)]
+    classes = [g.cls() for _ in range(30 if quick else 500)]
     classes += [('cls', True, [('ch', 0x61), ('esc', r'\D')], None), ('cls', False, [('esc', r'\D'), ('esc', r'\S')], None),
                 ('cls', False, [('ch', 0x61), ('esc', r'\S')], ('cls', False, [('esc', r'\D')], None)),
                 ('cls', False, [('ch', 0x20), ('esc', r'\S')], ('cls', False, [('esc', r'\D'), ('ch', 0x61)], None)),
                 ('cls', True, [('esc', r'\S'), ('esc', r'\d')], None), ('cls', False, [('esc', r'\P{L}'), ('esc', r'\P{N}')], None),
                 ('cls', True, [('esc', r'\P{L}'), ('ch', 0x61)], None), ('cls', False, [('esc', r'\W'), ('esc', r'\D')], None),
-                ('cls', False, [('esc', r'\d'), ('esc', r'\D')], None), ('cls', True, [('esc', r'\d'), ('esc', r'\D')], None)]
+                ('cls', False, [('esc', r'\d'), ('esc', r'\D')], None), ('cls', True, [('esc', r'\d'), ('esc', r'\D')], None),
+                ('cls', False, [('ch', 0x2d), ('esc', r'\w')], None), ('cls', False, [('ch', 0x2d), ('esc', r'\d'), ('rg', 0x5a, 0x62)], None),
+                ('cls', True, [('ch', 0x61), ('ch', 0x2d), ('esc', r'\S')], None), ('cls', False, [('ch', 0x5e), ('esc', r'\p{L}')], None),
+                ('cls', False, [('ch', 0x2e), ('esc', r'\D')], ('cls', False, [('ch', 0x2d), ('esc', r'\s')], None))]
     # systematic small classes: every base of <= 2 parts over {5, a, \d, \D, \S}, negated or not, with every subtrahend
     import itertools
     atoms = [('ch', 0x35), ('ch', 0x61), ('esc', r'\d'), ('esc', r'\D'), ('esc', r'\S')]
@@ -343,7 +346,7 @@ def run(chk):
 
     # ---------------- 2. whole expressions
     cases = []
-    for i in range(60 if quick else 5000):
+    for i in range(60 if quick else 700):
         e = g.rx(rng.choice([1, 2, 2]))
         mode = rng.choice(['xpath', 'xpath', 'xsd', 'fn', 'fn-x'])
         dotall = rng.random() < 0.3 and mode != 'xsd'
@@ -491,7 +494,7 @@ def run(chk):
             chk.nontrivial.add(pattern)
 
     # ---------------- 5. matches / replace / tokenize / analyze-string consistency
-    for i in range(40 if quick else 3000):
+    for i in range(40 if quick else 400):
         e = g.rx(rng.choice([1, 1, 2]))
         text = rx_text(e)
         subj = ''.join(map(chr, g.sample(e) + [rng.choice(ALPHA)] + g.sample(e) + [rng.choice(ALPHA) for _ in range(rng.randint(0, 2))]))
